@@ -191,6 +191,20 @@ class DiagAnalysis:
                     base = cal["c"][0]
                     if any(y.get("k") == "DeclRefExpr" and notpl(y.get("q") or "") == "std::cout" for y in walk(base)):
                         return "stream"
+                    # an ostream& parameter that every caller binds to std::cout
+                    for y in walk(base):
+                        if y.get("k") == "DeclRefExpr" and y.get("dk") == "ParmVar" and "ostream" in (y.get("t") or y.get("ct") or ""):
+                            idx = [i for i, p in enumerate(f.params) if p["d"] == y["d"]]
+                            sites = []
+                            for g_ in self.prog.functions.values():
+                                for c_ in g_.walk():
+                                    if is_call(c_) and f in self.prog.call_targets(g_, c_):
+                                        a_ = call_args(c_)
+                                        if idx and idx[0] < len(a_):
+                                            sites.append(a_[idx[0]])
+                            if sites and all(any(z.get("k") == "DeclRefExpr" and notpl(z.get("q") or "") == "std::cout" for z in walk(a_))
+                                             for a_ in sites):
+                                return "stream"
         if e.get("k") == "ConditionalOperator":
             c = strip_all(e["c"][0])
             if c.get("k") == "DeclRefExpr" and c.get("dk") == "Var":
